@@ -691,6 +691,9 @@ func (cr *clRun) deepChecks(when string, promoted string) {
 			} else if w := cr.electedHalfRebuilt(bad); w != nil {
 				clause += "/elected-after-interrupted-rebuild"
 				why += cr.d25Note(w)
+			} else if w := cr.ackedByMinorityOfRF(bad); w != nil {
+				clause += "/write-held-by-minority-of-rf"
+				why += cr.d26Note(w)
 			}
 			cr.viol(prop("C02"), clause, "%s: replica %s: %s", when, rn.name, why)
 			return
